@@ -60,6 +60,8 @@ REG = {
                 text="Generated C/C++ libraries; every exported function's return type, parameter count, parameter types and variadic marker and every exported variable's type are matched against abidw's output (typedefs, qualifiers, pointers, references, arrays, function types, builtin spellings); only the two documented normalisations and compiler-level spelling freedoms are accepted; exploration only.", note=_T1),
     "C17": dict(engine="progfuzz", technique="property-based testing (Hypothesis libraries mixing -g and non -g translation units; oracle A: expat+readelf accounting of declarations vs symbols; oracle B: exactly-once placement of removed interfaces in abidiff's sections)",
                 text="Generated C libraries with aliases, weak, hidden, static definitions and translation units without debug info; every exported interface must be attached to exactly one declaration or be a bare symbol, and each removed interface must show up exactly once in the right section; exploration only.", note=_T1),
+    "C20": dict(engine="progfuzz", technique="property-based testing (generated hard type graphs fed to the library's own canonicalization self-checks in a -DWITH_DEBUG_TYPE_CANONICALIZATION -DWITH_DEBUG_SELF_COMPARISON build)",
+                text="Generated recursive / anonymous / same-named / C++ class types; abidw --debug-tc and --debug-abidiff must stay silent; diagnostics are keyed by message family and kind of type so that the two families seen on every input (function / method types, the void id) are known findings and any other kind is a violation; exploration only.", note=_T1 + "; the library's debug self-checks"),
     "C22": dict(engine="progfuzz", technique="property-based testing (differential: report with an unsatisfiable generated suppression file vs report without)",
                 text="Generated pairs x suppression files whose every section is unsatisfiable by construction of the programs; output and status must equal the baseline; two recorded defects (bare symbols, drop path) are known findings recognised from the diff shape / by re-running without drop; exploration only.", note=_T1),
     "C18": dict(engine="progfuzz", technique="property-based testing (differential against readelf: multiset of symbol attributes and alias groups)",
